@@ -1579,7 +1579,7 @@ pub fn run(ctx: &Ctx) -> Report {
         // time a world does not use is passed on to the following ones
         let share = ((ea_budget - (ctx.elapsed() - t_ea)) * w.weight / weight_left).max(1.0);
         weight_left -= w.weight;
-        let out = poolexplore::run_world(ctx, &mut r, &w.built, &m, ctx.pick(w.depth.0, w.depth.1), share);
+        let out = poolexplore::run_world(ctx, &mut r, &w.built, &m, ctx.depth(w.depth.0, w.depth.1), share);
         poolexplore::fold(&mut r, &w.built.name, &out, &m.alphabet[..3.min(m.alphabet.len())]);
         if !r.violations.is_empty() {
             break;
